@@ -14,6 +14,9 @@ Section Keyword.
   Lemma is_keyword_no_dunder : forall w, starts_dunder w = true -> is_keyword cfg w = false.
   Proof. intros w H. unfold is_keyword. rewrite H. reflexivity. Qed.
 
+  Lemma m_keyword_dunder_none : forall prev w, starts_dunder w = true -> m_keyword cfg prev w = MNone.
+  Proof. intros prev w H. unfold m_keyword. rewrite H. reflexivity. Qed.
+
   Lemma is_keyword_dunder_false : forall w, is_keyword cfg w = true -> starts_dunder w = false.
   Proof.
     intros w H. destruct (starts_dunder w) eqn:E; [|reflexivity].
@@ -81,9 +84,12 @@ Section Keyword.
   Proof.
     intros w n R K k n' v H Hk w' Hv. unfold kw_reserved in R. apply andb_true_iff in R. destruct R as [_ R].
     unfold kw_action in H. destruct (Lexer.assoc w (op_table cfg)) as [nm|].
-    - destruct (mem_text nm (tok_names cfg)); [|discriminate]. inversion H; subst. inversion Hv; subst. exact K.
-    - destruct (mem_text _ (tok_names cfg)); [|discriminate]. inversion H; subst. clear H.
-      rewrite Hk in Hv. destruct (Lexer.assoc K_KEYWORD (kwvals cfg)); [discriminate|]. inversion Hv; subst. exact K.
+    - destruct (mem_text nm (tok_names cfg)); [|discriminate]. assert (E : w = w') by congruence. subst w'. exact K.
+    - destruct (mem_text _ (tok_names cfg)); [|discriminate]. assert (Ek : match Lexer.assoc w (keywords cfg) with Some t => t | None => K_KEYWORD end = K_KEYWORD) by congruence.
+      assert (Ev : match Lexer.assoc (match Lexer.assoc w (keywords cfg) with Some t => t | None => K_KEYWORD end) (kwvals cfg)
+                   with Some v0 => v0 | None => VText w end = VText w') by congruence.
+      rewrite Ek in Ev. destruct (Lexer.assoc K_KEYWORD (kwvals cfg)); [discriminate|].
+      assert (E : w = w') by congruence. subst w'. exact K.
   Qed.
 
   Lemma m_keyword_P : forall prev s, kw_reserved = true -> resP (m_keyword cfg prev s).
@@ -96,13 +102,13 @@ Section Keyword.
     rewrite (starts_dunder_firstn c r _ Ed). cbn [negb andb firstn]. exact Ei.
   Qed.
 
-  Ltac kind_neq := intros k n v H Hk; exfalso; inversion H; subst; discriminate.
+  Ltac kind_neq := let H := fresh "H" in let Hk := fresh "Hk" in intros ? ? ? H Hk; exfalso; inversion H; subst; discriminate.
 
   Lemma match_token_P : forall prev s, kw_reserved = true -> resP (match_token cfg prev s).
   Proof.
     intros prev s R. apply match_token_elim.
-    - unfold m_dollar. destruct s as [|c r]; [intros k n v H; discriminate|].
-      destruct (c =? 36); [kind_neq | intros k n v H; discriminate].
+    - unfold m_dollar. destruct s as [|c r]; [intros ? ? ? H; discriminate|].
+      destruct (c =? 36); [kind_neq | intros ? ? ? H; discriminate].
     - intros k n v H Hk. exfalso. unfold m_number in H.
       assert (NA : forall txt len, number_action cfg txt len = MTok k n v -> False).
       { intros txt len HA. unfold number_action in HA. destruct (memz 46 txt); [inversion HA; subst; discriminate|].
@@ -114,26 +120,26 @@ Section Keyword.
       match type of H with (match ?X with Some _ => _ | None => _ end) = _ => destruct X end.
       + exact (NA _ _ H).
       + match type of H with (if ?B then _ else _) = _ => destruct B end; [exact (NA _ _ H) | discriminate].
-    - unfold m_func. destruct s as [|c r]; [intros k n v H; discriminate|].
-      destruct (bnd cfg prev (Some c) && ident_start cfg c); [|intros k n v H; discriminate].
-      destruct (skipn (span (is_w cfg) r) r) as [|d t]; [intros k n v H; discriminate|].
-      destruct (d =? 40); [kind_neq | intros k n v H; discriminate].
+    - unfold m_func. destruct s as [|c r]; [intros ? ? ? H; discriminate|].
+      destruct (bnd cfg prev (Some c) && ident_start cfg c); [|intros ? ? ? H; discriminate].
+      destruct (skipn (span (is_w cfg) r) r) as [|d t]; [intros ? ? ? H; discriminate|].
+      destruct (d =? 40); [kind_neq | intros ? ? ? H; discriminate].
     - apply m_keyword_P. exact R.
-    - unfold m_string. destruct s as [|c r]; [intros k n v H; discriminate|].
-      destruct (c =? 39); [|intros k n v H; discriminate].
-      destruct (scan_body 39 false r); [|intros k n v H; discriminate]. cbn [negb].
-      destruct (decode_escapes cfg (firstn n r)); [kind_neq|]. destruct (guard_escape cfg); intros k n0 v H; discriminate.
-    - unfold m_string. destruct s as [|c r]; [intros k n v H; discriminate|].
-      destruct (c =? 34); [|intros k n v H; discriminate].
-      destruct (scan_body 34 false r); [|intros k n v H; discriminate]. cbn [negb].
-      destruct (decode_escapes cfg (firstn n r)); [kind_neq|]. destruct (guard_escape cfg); intros k n0 v H; discriminate.
-    - unfold m_string. destruct s as [|c r]; [intros k n v H; discriminate|].
-      destruct (c =? 96); [|intros k n v H; discriminate].
-      destruct (scan_body 96 false r); [kind_neq | intros k n v H; discriminate].
+    - unfold m_string. destruct s as [|c r]; [intros ? ? ? H; discriminate|].
+      destruct (c =? 39); [|intros ? ? ? H; discriminate].
+      destruct (scan_body 39 false r) as [nb|]; [|intros ? ? ? H; discriminate]. cbn [negb].
+      destruct (decode_escapes cfg (firstn nb r)); [kind_neq|]. destruct (guard_escape cfg); intros ? ? ? H; discriminate.
+    - unfold m_string. destruct s as [|c r]; [intros ? ? ? H; discriminate|].
+      destruct (c =? 34); [|intros ? ? ? H; discriminate].
+      destruct (scan_body 34 false r) as [nb|]; [|intros ? ? ? H; discriminate]. cbn [negb].
+      destruct (decode_escapes cfg (firstn nb r)); [kind_neq|]. destruct (guard_escape cfg); intros ? ? ? H; discriminate.
+    - unfold m_string. destruct s as [|c r]; [intros ? ? ? H; discriminate|].
+      destruct (c =? 96); [|intros ? ? ? H; discriminate].
+      destruct (scan_body 96 false r) as [nb|]; [kind_neq | intros ? ? ? H; discriminate].
     - intros k n v H Hk. exfalso. apply m_ops_kind in H. unfold kw_reserved in R. apply andb_true_iff in R.
       destruct R as [R _]. apply negb_true_iff in R. subst k. rewrite (mem_text_In _ _ H) in R. discriminate.
-    - unfold m_literal. destruct s as [|c r]; [intros k n v H; discriminate|].
-      destruct (memz c (literals cfg)); [kind_neq | intros k n v H; discriminate].
+    - unfold m_literal. destruct s as [|c r]; [intros ? ? ? H; discriminate|].
+      destruct (memz c (literals cfg)); [kind_neq | intros ? ? ? H; discriminate].
   Qed.
 
   Lemma lex_loop_tokens : kw_reserved = true -> forall fuel pos prev s,
@@ -143,11 +149,10 @@ Section Keyword.
     destruct s as [|c r]; [constructor|].
     destruct (memz c (ignore cfg)); [apply IH|].
     destruct (match_token cfg prev (c :: r)) as [|k n v| |] eqn:EM; try (cbn [fst]; constructor).
-    - destruct (error_yaql cfg); constructor.
-    - specialize (IH (pos + n)%nat (prev_after n prev (c :: r)) (skipn n (c :: r))).
-      destruct (lex_loop cfg f (pos + n) (prev_after n prev (c :: r)) (skipn n (c :: r))) as [l e].
-      cbn [fst] in *. constructor; [|exact IH]. cbn [tk_kind tk_val].
-      exact (match_token_P prev (c :: r) R k n v EM).
+    specialize (IH (pos + n)%nat (prev_after n prev (c :: r)) (skipn n (c :: r))).
+    destruct (lex_loop cfg f (pos + n) (prev_after n prev (c :: r)) (skipn n (c :: r))) as [l e].
+    cbn [fst] in *. constructor; [|exact IH]. cbn [tk_kind tk_val].
+    exact (match_token_P prev (c :: r) R k n v EM).
   Qed.
 
   (* every KEYWORD_STRING token of every text carries a value that is_keyword accepts, hence not '__...' *)
@@ -187,7 +192,7 @@ Section Paths.
   Lemma dispatch_no_reach : forall b fn, ~ reaches (dispatch b fn).
   Proof. intros b fn [m H]. unfold dispatch in H. destruct b; discriminate. Qed.
 
-  Lemma call_never_reaches : forall st b n kw p, p = (if b then PCallMeth n kw else PCallFn n kw) -> ~ reaches (run_path st p).
+  Lemma call_never_reaches : forall st (b : bool) n kw (p : path), p = (if b then PCallMeth n kw else PCallFn n kw) -> ~ reaches (run_path st p).
   Proof.
     intros st b n kw p Hp [m H]. subst p. destruct b; cbn [YaqlizedPaths.run_path] in H; unfold call_path in H;
       destruct (filter_kwargs cfg kw); try discriminate; exact (dispatch_no_reach _ _ (ex_intro _ m H)).
